@@ -1,0 +1,53 @@
+//go:build verif
+
+// Contracts for the govc verifier (see /verif/DESIGN.md). Comment-only file.
+package appdb
+
+//@ # ---------------------------------------------------------------- cache/disk coherence of AppDB (C09)
+//@ # Representation invariant, per record: the cached value is unset, or marked dirty, or equal to what is on disk.
+//@ # disk(db, key) is the ghost content of the app database (library spec tmdb.spec).
+
+//@ # "equal to what is on disk" is stated through the decoder a restarted node uses: decoding the stored bytes gives the cached value
+//@ spec cohEmission(a *AppDB) bool = a.emission == nil || a.isDirtyEmission || (a.emission.val >= 0 && bigdec(disk(a.db, "emission")) == a.emission.val)
+//@ spec cohHeight(a *AppDB) bool = (len(disk(a.db, "height")) == 0 || len(disk(a.db, "height")) == 8) && (a.lastHeight == 0 || (len(disk(a.db, "height")) == 8 && be64dec(disk(a.db, "height")) == a.lastHeight))
+
+//@ func (*AppDB).SetEmission
+//@   serves C09
+//@   requires appDB != nil && emission != nil && emission.val >= 0
+//@   ensures set: appDB.emission == emission
+//@   ensures coherent: cohEmission(appDB)
+//@   modifies appDB.emission, appDB.isDirtyEmission
+
+//@ func (*AppDB).SaveEmission
+//@   serves C09
+//@   requires appDB != nil && cohEmission(appDB) && (appDB.emission == nil || appDB.emission.val >= 0)
+//@   ensures coherent: cohEmission(appDB)
+//@   ensures clean: !appDB.isDirtyEmission
+//@   ensures written: appDB.emission != nil ==> bigdec(disk(appDB.db, "emission")) == appDB.emission.val
+//@   modifies appDB.isDirtyEmission, disk(appDB.db, "emission")
+
+//@ func (*AppDB).Emission
+//@   serves C09
+//@   requires appDB != nil && cohEmission(appDB)
+//@   ensures coherent: cohEmission(appDB)
+//@   ensures cached: old(appDB.emission) != nil ==> emission == old(appDB.emission)
+//@   ensures loaded: old(appDB.emission) == nil && len(disk(appDB.db, "emission")) > 0 ==> emission != nil && emission.val == bigdec(disk(appDB.db, "emission"))
+//@   ensures absent: old(appDB.emission) == nil && len(disk(appDB.db, "emission")) == 0 ==> emission == nil
+//@   modifies appDB.emission
+
+//@ func (*AppDB).SetLastHeight
+//@   serves C09
+//@   requires appDB != nil
+//@   ensures cached: appDB.lastHeight == height
+//@   ensures written: disk(appDB.db, "height") == be64enc(height) && len(disk(appDB.db, "height")) == 8
+//@   ensures coherent: cohHeight(appDB)
+//@   modifies appDB.lastHeight, disk(appDB.db, "height")
+
+//@ func (*AppDB).getLastHeight
+//@   serves C09
+//@   requires appDB != nil && cohHeight(appDB)
+//@   ensures coherent: cohHeight(appDB)
+//@   ensures cached: old(appDB.lastHeight) != 0 ==> result == old(appDB.lastHeight)
+//@   ensures loaded: old(appDB.lastHeight) == 0 && len(disk(appDB.db, "height")) == 8 ==> result == be64dec(disk(appDB.db, "height"))
+//@   ensures absent: old(appDB.lastHeight) == 0 && len(disk(appDB.db, "height")) == 0 ==> result == 0
+//@   modifies appDB.lastHeight
